@@ -158,7 +158,13 @@ def check_setitem(program, rep):
                     'that contains it / the name it is stored under')
             # ---- exclusive
             rr = r('exclusive', e.node)
-            if kind == 'maps':
+            absent = any(x.kind == 'cond' and x.extra is False
+                         and x.sym.text == f'{k} in {M}.handles'
+                         for x in tr[:i])
+            if kind == 'maps' and absent:
+                # no layer of the ChainMap holds the name: nothing to remove
+                rr['ok'] += 1
+            elif kind == 'maps':
                 lp = loops.get(f'{M}.handles.maps')
                 ok = False
                 why = (f'no loop over every layer of {M}.handles removes {k} '
@@ -436,6 +442,7 @@ def check_lookup(program, rep):
         parts_iter = f'{split}[:-1]'
         last = f'{split}[-1]'
         bad = None
+        unrecognised = None
         nret = 0
         for ex in exits:
             if ex.kind != 'return':
@@ -504,11 +511,24 @@ def check_lookup(program, rep):
             ok = has_loop and (
                 (val == want_h and (in_h is True or in_m is False))
                 or (val == want_m and (in_h is False or in_m is True)))
+            if not has_loop or last not in val:
+                # the walk over the key parts / the last part are not in the
+                # shape this rule reads (e.g. the part list is consumed with
+                # pop()): no verdict
+                unrecognised = ex.node
+                continue
             if not ok and bad is None:
                 bad = (ex.node, val, want_h, want_m, n_it)
         if nret == 0:
             rep.inconclusive('C11.lookup', site, f.node.name,
                              'no returning path found')
+            continue
+        if unrecognised is not None and bad is None:
+            rep.inconclusive('C11.lookup', site, f.node.name,
+                             'the walk over the key parts (for part in '
+                             'key.split(..)[:-1]) and the lookup of the last '
+                             'part were not recognised on some path',
+                             line=getattr(unrecognised, 'lineno', None))
             continue
         rep.check(bad is None, 'C11.lookup', site,
                   bad[0] if bad else f'{name}: lookup plan',
@@ -521,36 +541,44 @@ def check_lookup(program, rep):
                    f'{bad[3]} (otherwise)') if bad else '',
                   line=getattr(bad[0], 'lineno', f.node.lineno) if bad
                   else f.node.lineno)
-    # get: exactly one handler, KeyError, around the whole walk
+    # get: every step of the walk (loops over the key parts, subscripts of
+    # maps / handles) lies in the body of a try whose only handler is
+    # `except KeyError: return default`; nothing else is swallowed
     f = program.method('ResourceMap', 'get', inherited=False)
     tries = [n for n in ast.walk(f.node) if isinstance(n, ast.Try)]
-    ok = False
-    why = f'{len(tries)} try statements in get()'
-    if len(tries) == 1:
-        t = tries[0]
+    dflt = f.params()[2] if len(f.params()) > 2 else 'default'
+    why = None
+    if not tries:
+        why = 'no try statement in get()'
+    protected = set()
+    for t in tries:
         names = [norm(h.type) if h.type is not None else None
                  for h in t.handlers]
-        inside = {id(x) for s in t.body for x in ast.walk(s)}
-        loops_in = all(id(n) in inside for n in ast.walk(f.node)
-                       if isinstance(n, ast.For))
-        subs_in = all(id(n) in inside for n in ast.walk(f.node)
-                      if isinstance(n, ast.Subscript) and isinstance(
-                          n.value, ast.Attribute)
-                      and n.value.attr in ('maps', 'handles'))
-        dflt = f.params()[2] if len(f.params()) > 2 else 'default'
         ret_default = len(t.handlers) == 1 and len(t.handlers[0].body) == 1 \
             and isinstance(t.handlers[0].body[0], ast.Return) and norm(
                 t.handlers[0].body[0].value) == dflt
-        ok = names == ['KeyError'] and loops_in and subs_in and ret_default \
-            and not t.finalbody
-        why = (f'handlers {names}; walk inside try: {loops_in and subs_in}; '
-               f'returns default: {ret_default}')
-    rep.check(ok, 'C11.lookup', f.where, tries[0] if tries else f.node.name,
+        if names != ['KeyError'] or not ret_default or t.finalbody:
+            why = why or (f'a try in get() has handlers {names} '
+                          f'(returns default: {ret_default})')
+        for s in t.body:
+            for x in ast.walk(s):
+                protected.add(id(x))
+    for n in ast.walk(f.node):
+        risky = isinstance(n, ast.For) or (
+            isinstance(n, ast.Subscript) and isinstance(
+                n.value, ast.Attribute) and n.value.attr in ('maps',
+                                                             'handles')
+            and isinstance(n.ctx, ast.Load))
+        if risky and id(n) not in protected:
+            why = why or (f'`{norm(n)[:50]}` is evaluated outside the '
+                          'KeyError handler')
+    rep.check(why is None, 'C11.lookup', f.where,
+              tries[0] if tries else f.node.name,
               'get returns its default exactly when the walk raises KeyError',
-              'get() does not wrap the whole walk in exactly one KeyError '
-              'handler returning the default (' + why + '): it returns the '
-              'default where [] succeeds, raises where [] raises KeyError, '
-              'or swallows other errors', line=f.node.lineno)
+              'get() does not run every step of the walk under a KeyError '
+              'handler returning the default (' + (why or '') + '): it '
+              'returns the default where [] succeeds, raises where [] raises '
+              'KeyError, or swallows other errors', line=f.node.lineno)
 
 
 def run(program, rep, tier):
